@@ -882,6 +882,8 @@ theorem merge_ok_shape (cv : Conv V) (k : Bool) (r : Ref) (d s : Sec V)
     (merge cv k r d s).1 =
       .mk { d.attrs with definition := fillText d.attrs.definition s.attrs.definition
                          reference := fillText d.attrs.reference s.attrs.reference
+                         filledDef := recFill d.attrs.definition s.attrs.definition d.attrs.filledDef
+                         filledRef := recFill d.attrs.reference s.attrs.reference d.attrs.filledRef
                          merged := some r }
           (mergeProps cv k d.props s.props).1 (mergeSecs cv k r d.secs s.secs).1 := by
   cases s with
